@@ -2,6 +2,7 @@ import Driver.Parse
 import Driver.VmFam
 import Essential.Model.Types
 import Essential.Model.Hash
+import Essential.Model.Postcard
 import Essential.Model.Sign
 
 namespace Driver
@@ -17,6 +18,9 @@ def showPredicate (p : Predicate) : String :=
   "nodes=[" ++ ",".intercalate (p.nodes.map fun n => s!"{n.edgeStart}:{hexOfBytes n.programAddress}") ++ "] edges=" ++ showNats p.edges
 
 def showMutation (m : Mutation) : String := s!"{showWords m.key}->{showWords m.value}"
+
+def showSolution (s : Solution) : String :=
+  s!"{hexOfBytes s.contract}/{hexOfBytes s.predicate} data=[{",".intercalate (s.data.map showWords)}] muts=[{",".intercalate (s.mutations.map fun m => s!"{showWords m.1}->{showWords m.2}")}]"
 
 def showSetErr : SetErr → String
   | .empty => "Empty" | .tooMany => "TooMany" | .predicateDataLenExceeded => "PredicateDataLenExceeded"
@@ -112,6 +116,22 @@ def typesFamily (fam : String) : Option (Parser String) :=
   | "addr_solution" => some do
     let s ← pSolution; done
     pure (hexOfBytes (solutionAddr Sha256.sha256 s) ++ " " ++ hexOfBytes (pcSolution s))
+  | "pc" => some do
+    let kind ← tok
+    match kind with
+    | "solution" => do let s ← pSolution; done; pure (hexOfBytes (pcSolution s))
+    | "set" => do let ss ← listOf pSolution; done; pure (hexOfBytes (Postcard.pcSet ss))
+    | "mutation" => do let k ← words; let v ← words; done; pure (hexOfBytes (pcMutation (k, v)))
+    | _ => failure
+  | "pcdec" => some do
+    let kind ← tok
+    let bs ← bytes; done
+    match kind with
+    | "solution" => pure (match Postcard.unpcSolution bs with
+        | some (s, r) => s!"ok {showSolution s} rest={r.length}" | none => "err")
+    | "mutation" => pure (match Postcard.unpcMutation bs with
+        | some (m, r) => s!"ok {showWords m.1}->{showWords m.2} rest={r.length}" | none => "err")
+    | _ => failure
   | "addr_set" => some do
     let ss ← listOf pSolution; done
     pure (hexOfBytes (setAddr Sha256.sha256 ss))
